@@ -19,9 +19,33 @@ func (c *fctx) call(t *ast.CallExpr) string {
 			return c.builtin(id.Name, t)
 		}
 	}
+	if inner, ok := t.Fun.(*ast.CallExpr); ok { // sx.arpVerify(mac)(ctx, ip)
+		if op, ok := effectOf(calleeFunc(c.info, inner)); ok && op == "ArpVerify" {
+			return c.arpVerifyCall(t, inner)
+		}
+	}
+	if id, ok := t.Fun.(*ast.Ident); ok { // call of a function value held in a variable
+		if v, ok := c.info.Uses[id].(*types.Var); ok && c.x.kindOf(v.Type()) == kFunc {
+			s := c.varName(v)
+			for _, a := range t.Args {
+				s += " " + c.expr(a)
+			}
+			return "(← " + s + ")"
+		}
+	}
 	f := calleeFunc(c.info, t)
 	if f == nil {
 		bad("call of a non-function at %s", c.site(t.Pos()))
+	}
+	if op, ok := effectOf(f); ok {
+		if op == "ArpVerify" {
+			bad("arpVerify closure outside a call position at %s", c.site(t.Pos()))
+		}
+		s, res := c.effectCall(op, f, t)
+		if res.Len() != 1 {
+			bad("environment operation %s with %d results in expression position at %s", op, res.Len(), c.site(t.Pos()))
+		}
+		return s
 	}
 	if ci := c.x.funcs[f]; ci != nil {
 		if len(ci.mutParams) > 0 {
@@ -51,6 +75,9 @@ func (c *fctx) call(t *ast.CallExpr) string {
 		return "(Go.hasPrefix " + arg(0) + " " + arg(1) + ")"
 	case "math/rand.Uint32":
 		return c.oracle("UInt32")
+	case "math/rand.Int63n":
+		return c.oracle("Int") // trusted: 0 <= value < n
+
 	case "hash/crc32.ChecksumIEEE":
 		return "(Go.crc32IEEE " + arg(0) + ")"
 	case "fmt.Errorf", "errors.New":
@@ -87,6 +114,9 @@ func (c *fctx) userArgs(ci *FuncInfo, t *ast.CallExpr) []string {
 			}
 			break
 		}
+		if dropped(sig.Params().At(i).Type()) {
+			continue
+		}
 		args = append(args, c.expr(t.Args[i]))
 	}
 	return args
@@ -94,6 +124,10 @@ func (c *fctx) userArgs(ci *FuncInfo, t *ast.CallExpr) []string {
 
 func (c *fctx) userCall(ci *FuncInfo, t *ast.CallExpr, args []string) string {
 	s := "Gen." + ci.lean
+	if ci.effectful {
+		s += " E"
+		c.fi.effectful = true
+	}
 	for _, a := range args {
 		s += " " + a
 	}
@@ -167,4 +201,20 @@ func (c *fctx) oracle(typ string) string {
 	n := fmt.Sprintf("rnd%d", len(c.fi.oracles)+1)
 	c.fi.oracles = append(c.fi.oracles, oracle{n, typ})
 	return n
+}
+
+// funcValue: a translated function used as a value (argument of a function-typed parameter).
+func (c *fctx) funcValue(ci *FuncInfo) string {
+	if len(ci.mutParams) > 0 || len(ci.oracles) > 0 || ci.effectful {
+		bad("function value %s with side channels", ci.lean)
+	}
+	if ci.mayFail {
+		return "Gen." + ci.lean
+	}
+	n := len(ci.params)
+	var ps []string
+	for i := 0; i < n; i++ {
+		ps = append(ps, fmt.Sprintf("p%d", i))
+	}
+	return "(fun " + strings.Join(ps, " ") + " => pure (Gen." + ci.lean + " " + strings.Join(ps, " ") + "))"
 }
